@@ -44,7 +44,7 @@ func (c *Codec) NewReader(r io.Reader) io.ReadCloser {
 		}
 		return &errorReader{err: err}
 	}
-	return &reader{Reader: z}
+	return &reader{z: z}
 }
 
 // NewWriter implements the compress.Codec interface.
@@ -70,11 +70,21 @@ func (c *Codec) level() int {
 	return gzip.DefaultCompression
 }
 
-type reader struct{ *gzip.Reader }
+// reader does not embed *gzip.Reader: its WriteTo method is only valid on a
+// reader that has not been read from yet, and would otherwise be picked by
+// io.Copy after a partial Read.
+type reader struct{ z *gzip.Reader }
+
+func (r *reader) Read(b []byte) (int, error) {
+	if r.z == nil {
+		return 0, io.ErrClosedPipe
+	}
+	return r.z.Read(b)
+}
 
 func (r *reader) Close() (err error) {
-	if z := r.Reader; z != nil {
-		r.Reader = nil
+	if z := r.z; z != nil {
+		r.z = nil
 		err = z.Close()
 		// Pass it an empty reader, which is a zero-size value implementing the
 		// flate.Reader interface to avoid the construction of a bufio.Reader in
